@@ -578,6 +578,55 @@ def run_prefixes() -> dict:  # noqa: C901
     return res
 
 
+def run_midlife() -> dict:
+    """A process that is ALREADY running when the cache gets damaged (another writer killed in the middle of a write).
+
+    Phase 1: start on the prepared folder and use the database.  Then the cache file(s) on disk are put into the
+    damaged state named by CFG["damage"] (what a killed concurrent writer leaves).  Phase 2: the same process asks for
+    data files it has not loaded yet (each one makes it re-read and merge the on-disk cache) and then for the whole
+    query set.  Nothing may escape and every answer must be the reference answer."""
+    import pickle
+
+    import spsdk
+    from spsdk.utils import database as D
+
+    D.DatabaseManager()
+    db = D.get_whole_db()
+    first = list(CFG.get("first_files") or [])
+    for xf in first:
+        db.load_db_cfg_file(xf)
+    dmg = CFG.get("damage") or {}
+    done = {}
+    for name in sorted(os.listdir(CACHE)):
+        if not name.endswith(".cache"):
+            continue
+        which = "Q" if name.startswith("db_quick_info_") else "D"
+        how = dmg.get(which)
+        if how is None:
+            continue
+        path = os.path.join(CACHE, name)
+        with open(path, "rb") as f:
+            blob = f.read()
+        if how == "removed":
+            os.remove(path)
+        elif how == "wrongtype":
+            with open(path, "wb") as f:
+                pickle.dump({"not": "a database"}, f)
+        elif how == "garbage":
+            with open(path, "wb") as f:
+                f.write(bytes((i * 37 + 11) & 0xFF for i in range(max(16, len(blob) // 3))))
+        else:
+            with open(path, "wb") as f:
+                f.write(blob[: int(how)])
+        done[which] = [how, len(blob)]
+    extra = {}
+    for xf in CFG.get("extra_files") or []:
+        extra[os.path.relpath(xf, spsdk.SPSDK_DATA_FOLDER)] = h(db.load_db_cfg_file(xf))
+    parts = query_parts(CFG.get("queries", "full"), int(CFG.get("rot", 0)))
+    return {"digest": digest_of(parts), "parts": parts, "extra": extra, "damaged": done, "events": _NEV, "pid": os.getpid(),
+            "opens": OPENS}
+
+
 def run_cli() -> dict:
     """Real entry points through click's own runner (exit code, output digest)."""
     from click.testing import CliRunner
@@ -653,6 +702,8 @@ def main() -> int:
                 for xf in CFG["extra_files"]:
                     D.get_whole_db().load_db_cfg_file(xf)
             res = {"digest": digest_of(parts), "parts": parts, "events": _NEV, "pid": os.getpid(), "opens": OPENS}
+        elif mode == "midlife":
+            res = run_midlife()
         elif mode == "prefixes":
             res = run_prefixes()
         elif mode == "clear":
